@@ -422,7 +422,8 @@ EDIT_ALIGNED = {
              ':in-range', ':out-of-range', ':placeholder-shown', 'input:not(:checked)', ':default, :indeterminate',
              'option:checked', ':link', ':any-link'],
     'attr': ['[k]', '[k="1"]', '[K]', '[type=radio]', '[type="RADIO" i]', '[href^="#"]', '[value]', '[name=r1]', '[content]'],
-    'struct': [':first-child', ':last-child', ':only-child', ':nth-child(2)', ':nth-last-child(1 of p)', ':empty', ':root',
+    'struct': [':root', ':root > *', 'html:root', ':root :first-child', ':root > p', ':root', '* > p',
+               ':first-child', ':last-child', ':only-child', ':nth-child(2)', ':nth-last-child(1 of p)', ':empty', ':root',
                ':has(> p)', ':has(+ p)', 'p ~ p', ':nth-of-type(2)', ':only-of-type', 'li:nth-child(2 of .c) li:nth-child(1)',
                ':default', ':indeterminate', ':lang(de)', ':dir(rtl)', 'form :checked', ':not(:has(*))'],
 }
@@ -434,7 +435,7 @@ def edit_family(edit):
     kind = edit[0]
     if kind == 'text':
         return 'text'
-    if kind in ('move', 'remove', 'new'):
+    if kind in ('move', 'remove', 'new', 'wrap', 'unwrap', 'top', 'detach'):
         return 'struct'
     name = edit[2]
     if isinstance(name, int):
@@ -446,6 +447,9 @@ def edit_family(edit):
     if name in _FORM_ATTRS:
         return 'form'
     return 'attr'
+
+
+_KEEP_ALIVE = []
 
 
 def gen_edit(rng):
@@ -463,8 +467,16 @@ def gen_edit(rng):
         return ['text', i, rng.choice(TEXTS + ['hello world', 'x'])]
     if r < 0.80:
         return ['move', i, rng.randint(0, 60)]
-    if r < 0.88:
+    if r < 0.85:
         return ['remove', i]
+    if r < 0.89:
+        # wrap / unwrap an element (half of the time the document element itself: the root changes)
+        return [rng.choice(['wrap', 'wrap', 'unwrap']), i if rng.random() < 0.5 else 0, rng.choice(['section', 'div', 'html'])]
+    if r < 0.91:
+        name, attrs = rng.choice(EDIT_TAGS)
+        return ['top', rng.choice([0, 99]), name, dict(attrs)]      # a new top-level node before / after the root
+    if r < 0.945:
+        return ['detach', i]    # the user extracts a subtree and goes on working with it
     name, attrs = rng.choice(EDIT_TAGS)
     return ['new', i, name, dict(attrs), rng.randint(0, 3)]
 
@@ -472,14 +484,48 @@ def gen_edit(rng):
 def apply_edit(root, edit):
     """Apply one user edit to a parsed tree through the public Beautiful Soup API.  Elements are addressed by their
     document-order index modulo the number of elements, so the same edit list applies to any copy of the document.
-    Returns True when the tree changed."""
+    Returns (root, changed): 'detach' makes the extracted subtree the tree the caller goes on with."""
 
+    changed = _apply_edit(root, edit)
+    if isinstance(changed, tuple):
+        return changed
+    return root, changed
+
+
+def _maker(root):
+    import bs4
+    return root if isinstance(root, bs4.BeautifulSoup) else bs4.BeautifulSoup('', 'html.parser')
+
+
+def _apply_edit(root, edit):
     import bs4
     els = [e for e in root.descendants if isinstance(e, bs4.Tag)]
     if not els:
         return False
     kind = edit[0]
+    if kind == 'top':
+        t = _maker(root).new_tag(edit[2], attrs=dict(edit[3]))
+        root.insert(min(edit[1], len(root.contents)), t)
+        return True
     el = els[edit[1] % len(els)]
+    if kind == 'wrap':
+        if el.parent is None:
+            return False
+        el.wrap(_maker(root).new_tag(edit[2], attrs={'id': 'w'}))
+        return True
+    if kind == 'unwrap':
+        if el.parent is None or len(els) < 3:
+            return False
+        el.unwrap()
+        return True
+    if kind == 'detach':
+        inner = [e for e in els if any(isinstance(c, bs4.Tag) for c in e.contents)] or els
+        el = inner[edit[1] % len(inner)]
+        if el.parent is None:
+            return False
+        _KEEP_ALIVE.append(root)    # the rest of the old tree stays alive, as it would in the caller's program
+        del _KEEP_ALIVE[:-8]
+        return el.extract(), True
     if kind == 'attr':
         el[edit[2]] = edit[3]
         return True
@@ -513,8 +559,7 @@ def apply_edit(root, edit):
         el.extract()
         return True
     if kind == 'new':
-        maker = root if isinstance(root, bs4.BeautifulSoup) else bs4.BeautifulSoup('', 'html.parser')
-        t = maker.new_tag(edit[2], attrs=dict(edit[3]))
+        t = _maker(root).new_tag(edit[2], attrs=dict(edit[3]))
         el.insert(min(edit[4], len(el.contents)), t)
         return True
     raise ValueError(edit)
@@ -527,7 +572,7 @@ def build_state(specs, state):
         return build_doc(specs[state])
     soup = build_doc(specs[state[0]])
     for e in state[1]:
-        apply_edit(soup, e)
+        soup, _ = apply_edit(soup, e)
     return soup
 
 
